@@ -29,15 +29,16 @@ type Config struct {
 	TLSKey      string                `json:"tls_key"`
 	TLSClientCA string                `json:"tls_client_ca"`
 	// behaviours
-	CrashPoint  string `json:"crash_point"`  // exit(3) when this named point is reached
-	PartialLine string `json:"partial_line"` // print this (no newline) and exit instead of serving
-	PreOutput   string `json:"pre_output"`   // written to real stdout before Serve
-	Shutdown    string `json:"shutdown"`     // "" exit at once | "delay" | "ignore"
-	ShutdownMs  int    `json:"shutdown_ms"`  // delay before exit for "delay"
-	Marker      string `json:"marker"`       // file written by the deferred cleanup
-	EarlyStdout []byte `json:"early_stdout"` // written to os.Stdout right after Serve swapped it (before the host attaches)
-	EarlyStderr []byte `json:"early_stderr"`
-	NoLogger    bool   `json:"no_logger"`
+	CrashPoint     string `json:"crash_point"`  // exit(3) when this named point is reached
+	PartialLine    string `json:"partial_line"` // print this (no newline) and exit instead of serving
+	PreOutput      string `json:"pre_output"`   // written to real stdout before Serve
+	Shutdown       string `json:"shutdown"`     // "" exit at once | "delay" | "ignore"
+	ShutdownMs     int    `json:"shutdown_ms"`  // delay before exit for "delay"
+	Marker         string `json:"marker"`       // file written by the deferred cleanup
+	EarlyStdout    []byte `json:"early_stdout"` // written to os.Stdout right after Serve swapped it (before the host attaches)
+	EarlyStderr    []byte `json:"early_stderr"`
+	NoLogger       bool   `json:"no_logger"`
+	DropClientCert bool   `json:"drop_client_cert"` // take no part in AutoMTLS (impostor / pre-AutoMTLS build)
 }
 
 var (
@@ -202,6 +203,9 @@ func vmain() {
 	}
 	if cfg.Marker != "" {
 		defer func() { os.WriteFile(cfg.Marker, []byte("clean-exit"), 0o644) }()
+	}
+	if cfg.DropClientCert {
+		os.Unsetenv("PLUGIN_CLIENT_CERT")
 	}
 	crashIf("before-output")
 	if cfg.PartialLine != "" {
